@@ -105,6 +105,9 @@ META["rule"] += (
 META["rule"] += (
     " " + 'Added after the sixth round: 12 % of the random cases put the events of one series early and of the others late, with a lag of that size.')
 
+META["rule"] += (
+    " " + 'Added after the seventh round: a silent series is answered the same way whichever series it is; decimal quantile levels k/(T-1) on records of 126 .. 1001 samples; the p_value option of the climate network class.')
+
 _SAMPLED = {"ES": 0, "ECA": 0}
 
 ES_SETTINGS = [(INF, 0.0), (1.0, 0.0), (2.0, 1.0)]
@@ -212,6 +215,22 @@ def check_es(ctx, ES, x, y, ts, taumax, lag, cid, relations=False,
         return out, r
     if r is None:
         ctx.count("es_undefined")
+        if len(tx) == 0 or len(ty) == 0:
+            # a series without any event: whatever the library answers for
+            # "undefined", it is the same answer whichever of the two series
+            # is the silent one and whether or not the other one has events
+            z = np.zeros_like(np.asarray(x))
+            with warnings.catch_warnings():
+                warnings.simplefilter("ignore")
+                okz, oz = ctx.call(ES.event_synchronization, z, z, ts1=ts,
+                                   ts2=ts, taumax=taumax, lag=lag)
+            ctx.count("es_silent_series")
+            if okz and not np.array_equal(
+                    np.asarray(out, dtype=float),
+                    np.asarray(oz, dtype=float), equal_nan=True):
+                ctx.violation(f"event_synchronization:{opt}:silent-series-"
+                              "answered-differently",
+                              {**case, "lib": out, "both_silent": oz}, cid)
         return out, r
     ctx.count("es_defined")
     if r[0] + r[1] > 0:
@@ -640,6 +659,15 @@ def check_threshold(ctx, ES, k):
         data = r.integers(0, 3, (T, N)).astype(float)
     if r.random() < 0.2:
         data = data.astype(int) if style != "dyadic" else data
+    decimal_levels = False
+    if r.random() < 0.2:
+        # record lengths and decimal quantile levels for which the level
+        # falls exactly on a sample ((T - 1) q whole): nearly tie-free data
+        T = int(r.choice([126, 251, 501, 1001]))
+        N = min(N, 3)
+        data = r.integers(-40000, 40001, (T, N)) / 64.0
+        decimal_levels = True
+        ctx.count("quantile_levels_on_a_sample")
     # ---- per-variable specification --------------------------------
     mk = r.choice(["quantile", "value", "mixed"])
     if mk == "mixed" and N > 1:
@@ -660,6 +688,9 @@ def check_threshold(ctx, ES, k):
     cols = [data[:, i].astype(float) for i in range(N)]
 
     def pick(i):
+        if methods[i] == "quantile" and decimal_levels:
+            # a three-decimal level k / (T - 1)
+            return round(int(r.integers(1, T - 1)) / float(T - 1), 3)
         if methods[i] == "quantile":
             return float(r.choice([0.0, 0.125, 0.25, 0.5, 0.75, 0.875, 1.0,
                                    float(r.integers(0, 65)) / 64.0]))
